@@ -111,7 +111,7 @@ def gen_netstring(rnd, tier, cases):
             for ch in chunkings(s):
                 cases.append(ns_case(-1, fr, ch, 'ns-chunking-exhaustive'))
     # byte-at-a-time, two halves, random chunkings of longer sequences
-    for i in range(400 if big else 120):
+    for i in range(900 if big else 300):
         fr = [rand_payload(rnd) for _ in range(rnd.randint(1, 6))]
         s = b''.join(nsw(p) for p in fr)
         mx = rnd.choice((-1, -1, max(len(p) for p in fr) + 1, 1 << 20))
@@ -146,7 +146,7 @@ def gen_netstring(rnd, tier, cases):
         cases.append(ns_case(-1, [], [h], 'ns-hostile-buffered', declare=False))
         cases.append(ns_case(-1, [], [h[j:j + 1] for j in range(len(h))], 'ns-hostile-buffered', declare=False))
         cases.append(ns_case(4, [], rand_chunks(rnd, b'1:a,' + h + b'1:b,', 3), 'ns-hostile-buffered', declare=False))
-    for i in range(500 if big else 150):
+    for i in range(1500 if big else 400):
         fr = [rand_payload(rnd, rnd.choice((0, 1, 3, 10))) for _ in range(rnd.randint(1, 3))]
         s = mutate(rnd, b''.join(nsw(p) for p in fr))
         cases.append(ns_case(rnd.choice((-1, -1, 3, 11)), [], rand_chunks(rnd, s, rnd.choice((1, 3, 50))), 'ns-hostile-buffered', declare=False))
@@ -163,14 +163,14 @@ def nss_case(max_, chunks, fam, mode=None, rnd=None):
 
 def gen_stream(rnd, tier, cases):
     big = tier != 'quick'
-    for i in range(150 if big else 40):
+    for i in range(300 if big else 80):
         fr = [rand_payload(rnd) for _ in range(rnd.randint(1, 5))]
         s = b''.join(nsw(p) for p in fr)
         mx = rnd.choice((-1, max(len(p) for p in fr), 1 << 20))
         cases.append(nss_case(mx, rand_chunks(rnd, s, rnd.choice((1, 3, 20, 1000))), 'nss-valid'))
     for h in HOSTILE_NS:
         cases.append(nss_case(-1, [b'2:ok,' + h], 'nss-hostile', mode=rnd.choice(('sync', 'co'))))
-    for i in range(300 if big else 60):
+    for i in range(600 if big else 150):
         fr = [rand_payload(rnd, rnd.choice((0, 1, 3, 10))) for _ in range(rnd.randint(1, 3))]
         s = mutate(rnd, b''.join(nsw(p) for p in fr))
         cases.append(nss_case(rnd.choice((-1, 3, 11)), rand_chunks(rnd, s, rnd.choice((2, 50))), 'nss-hostile', mode=rnd.choice(('sync', 'co'))))
@@ -183,7 +183,7 @@ def gen_stream(rnd, tier, cases):
             if n >= 0:
                 cases.append(nss_case(mx, [nsw(b'y' * n) + nsw(b'')], 'nss-limit', mode=rnd.choice(('sync', 'co'))))
     if big:
-        p = bytes(rnd.randrange(256) for _ in range(M))
+        p = bytes(rnd.randrange(256) for _ in range(200000))   # (vmodel's extracted list functions are not tail recursive)
         cases.append(nss_case(M, [nsw(p) + nsw(b'tail')], 'nss-limit', mode='co'))
 
 
@@ -295,7 +295,7 @@ def gen_json_rt(rnd, tier, cases):
     for lo in (0, 0x7e, 0x7ff - 1, 0xd7ff - 2, 0xe000, 0xfffe - 1, 0x10000 - 1, 0x10ffff - 2):
         cps = [c for c in range(lo, lo + 3) if not 0xd800 <= c <= 0xdfff and c <= 0x10ffff]
         cases.append({'lines': ['js_rt cmp=1 "%s"' % ''.join(chr(c) for c in cps).encode('utf-8').hex()], 'tags': {'family': 'js-roundtrip-fixed'}})
-    for i in range(1500 if big else 400):
+    for i in range(6000 if big else 1000):
         g = Gen(rnd)
         v = g.value(rnd.choice((0, 1, 2, 3, 4, 6)))
         cases.append({'lines': ['js_rt cmp=%d %s' % (0 if g.has_flt else 1, v)], 'tags': {'family': 'js-roundtrip-random'}})
@@ -305,7 +305,7 @@ def gen_json_rt(rnd, tier, cases):
             cases.append({'lines': ['js_rt cmp=%d %s' % (0 if g.has_flt else 1, chain(d - 1, g.value(1) if False else '[]', kind))],
                           'tags': {'family': 'js-roundtrip-depth'}})
             cases.append({'lines': ['js_rt cmp=1 %s' % chain(d, 'i%d' % rnd.choice(INTS), kind)], 'tags': {'family': 'js-roundtrip-depth'}})
-    for i in range(300 if big else 80):
+    for i in range(1000 if big else 200):
         g = Gen(rnd, bad_utf8=True)
         v = g.value(rnd.choice((0, 1, 2)))
         cases.append({'lines': ['js_rt cmp=%d %s' % (0 if g.has_flt else 1, v)], 'tags': {'family': 'js-roundtrip-illformed-utf8'}})
@@ -362,12 +362,12 @@ def gen_json_hostile(rnd, tier, cases):
     cases.append({'lines': ['js_dec ' + hx(h) for h in HOSTILE_JSON], 'tags': {'family': 'js-hostile-fixed'}})
     cases.append({'lines': ['js_msg ' + hx(h) for h in (b'{}', b'[]', b'1', b'null', b'{"jsonrpc":"2.0","method":"event::Heartbeat","params":{"timeout":120}}',
                                                        b'{"a":1', b'"{}"', b'{"a":[1,2,{"b":null}]}')], 'tags': {'family': 'js-message'}})
-    for i in range(1200 if big else 350):
+    for i in range(5000 if big else 900):
         doc = rand_doc(rnd, rnd.choice((1, 2, 3, 4))).encode('utf-8', 'surrogatepass')
         if rnd.random() < 0.75:
             doc = mutate_json(rnd, doc)
         cases.append({'lines': ['js_dec ' + hx(doc)] + (['js_msg ' + hx(doc)] if rnd.random() < 0.3 else []), 'tags': {'family': 'js-hostile-mutated'}})
-    for i in range(200 if big else 60):
+    for i in range(800 if big else 150):
         doc = bytes(rnd.choice(b'[]{}:,"\\u0123456789abcdefnrtl.-+eE \xc3\xa4\xff\x00') for _ in range(rnd.randint(1, 30)))
         cases.append({'lines': ['js_dec ' + hx(doc)], 'tags': {'family': 'js-random-bytes'}})
     # nesting: within 64 must decode; beyond that anything but a crash (one op per case: a crash ends the process)
